@@ -96,6 +96,8 @@ def shards(tier):
     for n in (130, 260, 300):
         out.append({'kind': 'many', 'n': n})
     out.append({'kind': 'border'})
+    for s in range(len(ROT_SHAPES)):
+        out.append({'kind': 'rotseq', 'shape': s})
     return out
 
 
@@ -109,6 +111,12 @@ def run_shard(shard, ctx, tier):
             for strong_top in (0, 1):
                 for ds in (1, 4):
                     guarded_check(mod, {'border': d, 'strong_top': strong_top, 'ds': ds}, ctx)
+        return
+    if shard['kind'] == 'rotseq':
+        for ds in (1, 4):
+            for combo in itertools.product(range(4), repeat=2):
+                for seq in ROT_SEQS:
+                    guarded_check(mod, {'rotseq': list(seq), 'shape': shard['shape'], 'ds': ds, 'combo': list(combo)}, ctx)
         return
     if shard['kind'] == 'many':
         for ds in (1, 2):
@@ -444,6 +452,87 @@ def check_rot(case, ctx):
         ctx.nontrivial((k, case['shape'], ds, tuple(case['combo'])), 'rotated-non-square-pages')
 
 
+ROT_SEQS = [(1, 3), (3, 1), (0, 2), (2, 0), (0, 1, 3)]       # orientations analysed in turn, on ONE engine object, for one page
+
+
+class ImageNet:
+    """stands for the network file: the three image channels ARE the ascender map (x 8), the descender map (x 8) and the baseline response"""
+    def __call__(self, x):
+        import torch
+        out = torch.zeros((x.shape[0], 5, x.shape[2], x.shape[3]), dtype=torch.float32)
+        out[:, 0] = x[:, 0] * (255.0 / 8.0)
+        out[:, 1] = x[:, 1] * (255.0 / 8.0)
+        out[:, 2] = x[:, 2]
+        return out, None
+
+
+def image_engine(ds):
+    """a LayoutEngine whose REAL TorchParseNet.get_maps runs (resize, padding to a multiple of 64, tensor conversion, cropping) around ImageNet"""
+    import contextlib
+    import io
+    import unittest.mock
+    import torch
+    from pero_ocr.layout_engines.cnn_layout_engine import LayoutEngine
+    from pero_ocr.layout_engines import torch_parsenet
+    with unittest.mock.patch.object(torch_parsenet.torch.jit, 'load', lambda *a, **kw: ImageNet()), contextlib.redirect_stdout(io.StringIO()):
+        return LayoutEngine('stub-model', torch.device('cpu'), downsample=ds, adaptive_downsample=False)
+
+
+def check_rotseq(case, ctx):
+    """the orientations of ONE page analysed one after the other by ONE engine (what the page parser does with MULTI_ORIENTATION): each pass must
+    equal the pass of a fresh engine over the explicitly turned page, mapped back exactly"""
+    import contextlib
+    import io
+    seq, ds = case['rotseq'], case['ds']
+    shape_m = ROT_SHAPES[case['shape']]
+    ridges = []
+    for n, a in enumerate(case['combo']):
+        v = list(ALPHA8[a])
+        v[1] = min(v[1], 2)
+        v[5] = 0                                                # (no end-point channel in a three-channel image)
+        ridges.append(ridge_geometry([n] + v, shape_m))
+    maps = paint(ridges, shape_m)
+    enc = np.zeros(shape_m + (3,), dtype=np.uint8)
+    enc[:, :, 0] = np.clip(np.round(maps[:, :, 0] * 8), 0, 255)
+    enc[:, :, 1] = np.clip(np.round(maps[:, :, 1] * 8), 0, 255)
+    enc[:, :, 2] = np.clip(np.round(maps[:, :, 2] * 255), 0, 255)
+    img_r = np.repeat(np.repeat(enc, ds, axis=0), ds, axis=1)
+    page = np.rot90(img_r, k=-seq[0]).copy()                    # the first pass of the sequence sees the ridges horizontally
+    ctx.state(('rotseq', tuple(seq), case['shape'], ds, tuple(case['combo'])))
+    eng = image_engine(ds)
+    desc = f'page {page.shape[:2]} analysed by one engine in orientations {seq} in turn, ds={ds}, ridges (as seen in orientation {seq[0]}) {ridges}'
+    found = 0
+    for k in seq:
+        with contextlib.redirect_stdout(io.StringIO()):
+            ctx.reseed()
+            p1, b1, h1, t1 = eng.detect(page.copy(), rot=k)
+            turned = np.rot90(page, k=k).copy()
+            ctx.reseed()
+            p0, b0, h0, t0 = image_engine(ds).detect(turned, rot=0)
+        ctx.executed(2)
+        K = f'{ID}/detect/orientations-in-turn-on-one-engine/rot{k}'
+        found += len(b0)
+        if len(b1) != len(b0) or len(p1) != len(p0):
+            ctx.violation('rotated-pass-in-original-coordinates', f'{K}/different-layout',
+                          f'{desc}: pass {k} finds {len(b1)} lines / {len(p1)} regions, a fresh engine on the turned page {len(b0)} / {len(p0)}', case)
+            return
+        for name, got, ref in (('baseline', b1, b0), ('outline', t1, t0), ('region', p1, p0)):
+            for g, r in zip(got, ref):
+                want = inverse_rot90(r, k, turned.shape)
+                g = np.asarray(g, dtype=float)
+                if g.shape != want.shape or np.abs(g - want).max() > 1.0 + 1e-3:
+                    off = float(np.abs(g - want).max()) if g.shape == want.shape else None
+                    ctx.violation('rotated-pass-in-original-coordinates', f'{K}/{name}-not-in-original-coordinates',
+                                  f'{desc}: pass {k}: {name} {g.round(1).tolist()} should be {want.round(1).tolist()} (max offset {off})', case)
+                    return
+        if [list(map(float, h)) for h in h1] != [list(map(float, h)) for h in h0]:
+            ctx.violation('heights-match', f'{K}/heights-differ', f'{desc}: pass {k}: {h1} vs {h0}', case)
+            return
+    ctx.outcome(('rotseq', tuple(seq), found))
+    if found >= len(seq):
+        ctx.nontrivial(('rotseq', tuple(seq), case['shape'], ds, tuple(case['combo'])), 'orientations-in-turn-on-one-engine')
+
+
 def check_many(case, ctx):
     """a tall map with more than 127 / 255 separate ridges (component labels beyond the range of narrow integer types)"""
     n, ds = case['many'], case['ds']
@@ -467,8 +556,8 @@ def check_border(case, ctx):
     d, ds = case['border'], case['ds']
     H, W = MAP_SHAPE
     faint, strong = 0.7, 1.0
-    ridges = [{'row': d, 'x0': 30, 'x1': 150, 'slope': 0.0, 'thick': 3, 'h': (6.0, 2.0), 'ep': False, 'resp': strong if case['strong_top'] else faint},
-              {'row': H - 1 - d, 'x0': 30, 'x1': 150, 'slope': 0.0, 'thick': 3, 'h': (6.0, 2.0), 'ep': False, 'resp': faint if case['strong_top'] else strong}]
+    ridges = [{'row': d, 'x0': 30, 'x1': 150, 'slope': 0.0, 'thick': 3, 'h': (5.0, 2.0), 'ep': False, 'resp': strong if case['strong_top'] else faint},
+              {'row': H - 1 - d, 'x0': 30, 'x1': 150, 'slope': 0.0, 'thick': 3, 'h': (11.0, 4.0), 'ep': False, 'resp': faint if case['strong_top'] else strong}]     # (larger print at the bottom)
     ctx.state(('border', d, case['strong_top'], ds))
     maps = paint(ridges, MAP_SHAPE)
     ctx.reseed()
@@ -485,6 +574,8 @@ def check_case(case, ctx):
         return check_border(case, ctx)
     if 'many' in case:
         return check_many(case, ctx)
+    if 'rotseq' in case:
+        return check_rotseq(case, ctx)
     if 'adaptive' in case:
         return check_adaptive(case, ctx)
     if 'rot' in case:
@@ -503,6 +594,6 @@ def describe(tier):
                       'rotated_map_shapes': ROT_SHAPES},
         'assumptions': ['end points within 3 map px, rows within (1 + thickness/2) map px (+ slope x 3), heights exact for constant maps',
                         'the rotated pass is compared with the exact inverse rot90 of the layout decoded from the rotated image, tolerance 1 px'],
-        'min_nontrivial': 100, 'required_tags': ['several-ridges', 'with-end-point-responses', 'sloped-ridges', 'rotated-non-square-pages',
+        'min_nontrivial': 100, 'required_tags': ['orientations-in-turn-on-one-engine', 'several-ridges', 'with-end-point-responses', 'sloped-ridges', 'rotated-non-square-pages',
                           'two-lines-starting-on-the-same-row', 'print-size-changes-between-pages', 'adaptive-factor-changed', 'page-exceeds-the-pixel-budget', 'more-than-255-ridges', 'non-default-engine-options', 'ridges-next-to-the-map-borders'],
     }
